@@ -68,8 +68,8 @@ func errEnum(msg string) string {
 		return "missing-node"
 	case strings.Contains(msg, state.ErrMissingService.Error()):
 		return "missing-service"
-	case strings.Contains(msg, "duplicate CA root ID"):
-		return "roots-duplicate"
+	case strings.Contains(msg, "is reserved by node"):
+		return "node-name-conflict"
 	case strings.Contains(msg, "exactly one active CA"):
 		return "roots-active"
 	case strings.Contains(msg, state.ErrMissingCARootID.Error()):
@@ -184,7 +184,7 @@ func project(st *state.Store) string {
 	}
 	for _, r := range st.VerifC10Rows("nodes") {
 		e := r.(*structs.Node)
-		node = append(node, fmt.Sprintf("%s;%s;%d;%d", hx.EncS(e.Node), hx.EncS(e.Address), e.CreateIndex, e.ModifyIndex))
+		node = append(node, fmt.Sprintf("%s;%s;%s;%d;%d", hx.EncS(e.Node), hx.EncS(string(e.ID)), hx.EncS(e.Address), e.CreateIndex, e.ModifyIndex))
 	}
 	for _, r := range st.VerifC10Rows("services") {
 		e := r.(*structs.ServiceNode)
